@@ -263,8 +263,8 @@ def rule_r2(rep, idxs):
 
 def rule_r3(rep, idxs):
     rep.rule('R3', 'the value returned by hexsim::Processor::run() (hextb: run()) is returned from main on every path '
-             'that executes it; a failed compilation in xrun yields a non-zero status', floor=4,
-             floor_reason='run call sites in hexsim.cpp, xrun.cpp, hextb.cpp + xrun compile status')
+             'that executes it; a failed compilation in xrun yields a non-zero status', floor=5,
+             floor_reason='run call sites in hexsim.cpp, xrun.cpp, hextb.cpp + Processor::run + xrun compile status')
     for tu in ('hexsim.cpp', 'xrun.cpp', 'hextb.cpp'):
         idx = idxs[tu]
         m = main_of(idx)
@@ -293,6 +293,17 @@ def rule_r3(rep, idxs):
                 # assigned to a variable that every later return hands back
                 ok, how = _returned_via_variable(idx, m, site)
             rep.add('R3', '%s:run-result#%d' % (tu, k), ok, pos(site) + ' main(' + tu + ')', how)
+    # the value handed to main: Processor::run() returns the exit-status member (set by the exit system call) on every path
+    ix = idxs['hexsim.cpp']
+    rf = ix.func('hexsim::Processor::run')
+    rets = [r for r in walk(rf.body) if r['kind'] == 'ReturnStmt']
+    good = bool(rets) and all(children(r) and (cast.member_ref(children(r)[0]) or (None,))[0] == 'exitCode' for r in rets)
+    sysc = ix.func('hexsim::Processor::syscall')
+    sets = [x for x in walk(sysc.body) if x['kind'] == 'BinaryOperator' and x.get('opcode') == '=' and
+            (cast.member_ref(children(x)[0]) or (None,))[0] == 'exitCode']
+    rep.add('R3', 'hexsim::Processor::run:returns-exit-value', good and len(sets) == 1, pos(rf.node) + ' hexsim::Processor::run',
+            '%d return statement(s), all return exitCode; exitCode assigned at %d site(s) in syscall()' % (len(rets), len(sets)) if good else
+            'run() has a return that is not the exit value set by the exit system call')
     # xrun: compile failure must give non-zero
     idx = idxs['xrun.cpp']
     m = main_of(idx)
